@@ -47,6 +47,13 @@ let err_str = function
   | Res.EPeerIdentity -> "PeerIdentity" | Res.ENoMessage -> "NoMessage"
   | Res.EReturnToSender -> "ReturnToSender" | Res.EBufferFull -> "BufferFull" | Res.ENotFound -> "NotFound"
 
+let zerr_str = function
+  | Res.EDecode -> "Codec.Decode" | Res.EGreeting -> "Codec.Greeting" | Res.EMechanism -> "Codec.Mechanism"
+  | Res.ECommand -> "Codec.Command" | Res.EIoEof -> "Codec.Io.UnexpectedEof" | Res.EIo _ -> "Codec.Io"
+  | Res.EOther -> "Other" | Res.EUnsupportedVersion -> "UnsupportedVersion"
+  | Res.EPeerIdentity -> "PeerIdentity" | Res.ENoMessage -> "NoMessage"
+  | Res.EReturnToSender -> "ReturnToSender" | Res.EBufferFull -> "BufferFull" | Res.ENotFound -> "Other"
+
 let item_str = function
   | Codec.IGreeting g ->
       Printf.sprintf "G:%d.%d.%s.%d" (int_of_n g.Codec.g_major) (int_of_n g.Codec.g_minor)
@@ -85,7 +92,27 @@ let run_case kind (args : string list) : string =
       let stopped = List.exists (function Codec.OErr _ | Codec.OPanic _ | Codec.OEnd -> true | _ -> false) outs in
       let toks = List.map out_str outs in
       let toks = if stopped then toks else toks @ ["pend"] in
-      String.concat " " toks
+      let r = Codec.lib_reader chunks in
+      String.concat " " (toks @ [Printf.sprintf "buf=%d" (List.length r.Codec.rd_buf);
+                                 Printf.sprintf "held=%d" (int_of_n (Codec.held r))])
+  | "admit", local :: chunks :: rest ->
+      let chunks = if chunks = "." then [] else List.map bytes_tok (String.split_on_char '|' chunks) in
+      (match Handshake.handshake_verdict (stype_of local) chunks (List.mem "eof" rest) with
+       | Handshake.Accept (Handshake.IdAnnounced b) -> "ok:" ^ hex_of b
+       | Handshake.Accept Handshake.IdFresh -> "ok:auto"
+       | Handshake.Reject e -> "err:" ^ zerr_str e
+       | Handshake.Crash _ -> "panic"
+       | Handshake.Incomplete -> "pending")
+  | "compat", [a; b] ->
+      (match Handshake.compatible (stype_of a) (stype_of b) with
+       | Res.Ok v -> if v then "1" else "0"
+       | _ -> "panic")
+  | "stypename", [h] ->
+      (match Codec.stype_of_name (bytes_tok h) with
+       | Some t -> Printf.sprintf "ok:%s:%d" (str_of_bytes (Codec.stype_name t)) (int_of_n (Codec.stype_idx t))
+       | None -> "err")
+  | "specitems", [h] ->
+      String.concat " " (List.map out_str (Stream.spec_items (bytes_tok h)))
   | "greet", ["default"] -> hex_of (Codec.encode_greeting Codec.default_greeting)
   | "greet", [a; b; m; s] ->
       let g = { Codec.g_major = n_of_int (int_of_string a); Codec.g_minor = n_of_int (int_of_string b);
